@@ -58,8 +58,37 @@ pub fn match_finding<'a>(
 }
 
 fn pred(name: &str, v: &Violation, cfg: Option<&RunCfg>, trace: Option<&[TraceEv]>) -> bool {
-    let _ = (v, cfg, trace);
+    let _ = (v, cfg);
     match name {
+        // F11: some captured ("user") transaction writes the same map key / attribute twice
+        // (set+set, set+remove, clear+set ...) before the failing undo/redo
+        "same-key-twice-in-tracked-txn" => {
+            use crate::ops::Op;
+            use crate::world::Ev;
+            let Some(trace) = trace else { return false };
+            trace.iter().any(|t| match &t.ev {
+                Ev::Txn { origin: Some(o), ops, .. } if o == "user" => {
+                    let mut seen: Vec<(crate::ops::Tgt, Option<String>)> = Vec::new();
+                    let mut twice = false;
+                    for op in ops {
+                        let k = match op {
+                            Op::MSet { t, key, .. } | Op::MUpdate { t, key, .. } | Op::MRemove { t, key } => Some((t.clone(), Some(key.clone()))),
+                            Op::XAttrSet { t, key, .. } | Op::XAttrRemove { t, key, .. } => Some((t.clone(), Some(key.clone()))),
+                            Op::MClear { t } => Some((t.clone(), None)),
+                            _ => None,
+                        };
+                        if let Some((t, key)) = k {
+                            if seen.iter().any(|(st, sk)| *st == t && (sk.is_none() || key.is_none() || *sk == key)) {
+                                twice = true;
+                            }
+                            seen.push((t, key));
+                        }
+                    }
+                    twice
+                }
+                _ => false,
+            })
+        }
         _ => false,
     }
 }
